@@ -65,7 +65,7 @@ def inproc(ctx):
     rng = ctx.rng
     h = mch.Harness(ctx)
     cases = []
-    for i in range(ctx.n(110, 1500)):
+    for i in range(ctx.n(110, 800)):
         cfg = gen_cfg(rng)
         fo = F.assign_times(rng, F.gen_shape(rng, 6, rng.choice([3, 8, 20]), 6), durs=DURS)
         evs = F.flatten(fo)
@@ -89,7 +89,7 @@ def inproc(ctx):
                  sample={"cfg": cfg, "events": evs[:10], "records": res["recs"][:6]} if len(ctx.samples) < 3 and cfg["trig"] else None)
     # method independence pairs: same cfg and forest under both shapes (default --max-stack)
     pairs = []
-    for i in range(ctx.n(40, 500)):
+    for i in range(ctx.n(40, 300)):
         cfg = gen_cfg(rng, "pg")
         cfg.pop("max_stack", None)
         cfg2 = dict(cfg, shape="cyg")
@@ -103,7 +103,7 @@ def inproc(ctx):
         ctx.case(key=("pair", repr(cfg), tuple(evs)), tags=["method-pair"], size=len(evs))
     # stage-1 specification cases: only -F / -N / -D / -t (durations around the threshold, zero durations too)
     selcases = []
-    for i in range(ctx.n(50, 600)):
+    for i in range(ctx.n(50, 350)):
         cfg = {"shape": rng.choice(["pg", "cyg"]), "trig": {}, "pattern": rng.choice(["simple", "regex", "glob"])}
         facts = rng.choice(["none", "none", "all", "mixed"])
         for k in rng.sample(range(6), rng.randrange(1, 4)):
@@ -123,7 +123,7 @@ def inproc(ctx):
     # stage-2 specification cases: -F / -N / -C / -D / -t plus depth=, time=, size= and trace trigger actions (well-formed
     # values), both shapes, no restriction on the combination
     sel2cases = []
-    for i in range(ctx.n(50, 600)):
+    for i in range(ctx.n(50, 350)):
         cfg = {"shape": rng.choice(["pg", "cyg"]), "trig": {}, "pattern": rng.choice(["simple", "regex", "glob"])}
         facts = rng.choice(["none", "none", "all", "mixed"])
         use_caller = rng.random() < 0.35
@@ -157,7 +157,7 @@ def inproc(ctx):
                  sorted({"sel2:" + k for t in cfg["trig"].values() for k in t if k != "as_action"}), size=len(evs))
     # -Z (record --size-filter) on top of the stage-2 option class: specification sel2 started with the size filter in force
     zcases = []
-    for i in range(ctx.n(20, 250)):
+    for i in range(ctx.n(20, 150)):
         cfg = {"shape": rng.choice(["pg", "cyg"]), "trig": {}, "pattern": rng.choice(["simple", "regex", "glob"]),
                "min_size": rng.choice([20, 40, 60, 100, 300])}
         for k in rng.sample(range(6), rng.randrange(0, 4)):
@@ -188,7 +188,7 @@ def inproc(ctx):
     # the records of the implementation against the model run that stops at the first firing entry, and - same
     # options and history - the two instrumentation shapes against each other
     fincases = []
-    for i in range(ctx.n(20, 200)):
+    for i in range(ctx.n(20, 120)):
         cfg = {"trig": {}, "pattern": rng.choice(["simple", "regex", "glob"])}
         ks = rng.sample(range(6), rng.randrange(1, 4))
         cfg["trig"][ks[0]] = {"finish": True}
@@ -223,7 +223,7 @@ def inproc(ctx):
     # a later one overrides an earlier one action by action, patterns may match several functions; the trigger table and
     # filter_count / caller_count come from the model (Mcount/Table.v cfg_of_opts).  Both shapes, same options + history.
     optcases = []
-    for i in range(ctx.n(30, 300)):
+    for i in range(ctx.n(30, 160)):
         pt = rng.choice(["regex", "regex", "glob", "simple"])
         cfg = {"pattern": pt, "opts": []}
 
@@ -270,7 +270,7 @@ def inproc(ctx):
                  size=len(evs))
     # record --disable (tracing starts switched off) with trace_on / trace_off triggers and filters
     offcases = []
-    for i in range(ctx.n(15, 150)):
+    for i in range(ctx.n(15, 100)):
         cfg = {"shape": rng.choice(["pg", "cyg"]), "trig": {}, "pattern": "simple", "disable": True}
         ks = rng.sample(range(6), rng.randrange(1, 4))
         cfg["trig"][ks[0]] = {"trace_on": True}
@@ -492,7 +492,7 @@ def e2e(ctx, objdir):
     uft = os.path.join(objdir, "uftrace")
     work = os.path.join(ctx.scratch, "e2e")
     os.makedirs(work, exist_ok=True)
-    for pi in range(ctx.n(6, 24)):
+    for pi in range(ctx.n(6, 16)):
         fo_main = F.gen_shape(rng, 6, rng.choice([6, 12, 25]), 6)
         # source locations for -L: every function class lies in "file" locA.c or locB.c, main in locmain.c
         locbit = rng.randrange(2)
